@@ -169,7 +169,7 @@ def c09(tier):
     b = build("flow")
     res = [run_space(b, "ipfix.perturb", tier), run_space(b, "v9.perturb", tier), run_space(b, "ipfix.many", tier), run_space(b, "v9.many", tier)]
     return finish("C09", tier, res,
-                  rule="5 base messages (2-3 data sets over 4 templates incl. variable-length fields, an options template, and octet-array contents that look like a set header of a known template) x insertion position 0..n x one undecodable set: every reserved id (IPFIX 4..255, v9 2..255), unknown template ids {256,999,65535}, data sets of two templates naming an element absent from the model (scope / non-scope), bodies of 0..9 octets, a body that is itself a valid set, and such inner sets followed by further octets; templates pre-announced or in-message; "
+                  rule="5 base messages (2-3 data sets over 4 templates incl. variable-length fields, an options template, and octet-array contents that look like a set header of a known template) x insertion position 0..n x one undecodable set: every reserved id (IPFIX 4..255, v9 2..255), unknown template ids {256,999,65535}, data sets of four templates naming an element absent from the model (as first field, as scope field, in the middle of a record, as an option field after a decodable scope), bodies of 0..9 octets, a body that is itself a valid set, and such inner sets followed by further octets; templates pre-announced or in-message; "
                        "then every truncation offset 0..len of every base and perturbed message (counter 'truncations'); many: the same undecodable set (reserved id / unknown template / absent element / empty body / a mixture) inserted N times in a row at every position, N in {2..9, 15..18, 31..33, 63..65, 100, 127..129, 255..257, 1000} (thorough: every N up to 300, 1000, 4000). Quick: every id with 5 bodies and 7 boundary ids with all 13 bodies; thorough: all ids x all bodies. Non-trivial = every case; distinct = wire octets x template placement.",
                   assumptions=FLOW_ASSUME + ["IPFIX set ids 0 and 1 ('not used', RFC 7011 3.3.2) are not counted among the reserved ids",
                                              "the records of the complete datagram used by the truncation oracle are the implementation's own decode of it (differential), its correctness is C03/C06"], t0=t0)
@@ -373,7 +373,7 @@ def c11(tier):
     shutil.rmtree(tmp, ignore_errors=True)
     res.append(aging_space())
     return finish("C11", tier, res,
-                  rule="per protocol: roundtrip: 6 (thorough 40) cache contents reached by decoding announcements (0..240 templates; plain/options/enterprise/variable-length; IPv4-mapped, 4-byte and IPv6 exporters) dumped, loaded, every key probed with a well-formed data message and compared with the live cache, second generation identical; the same content saved by ANOTHER process and loaded by this one (a restart is never the same process); a smaller cache saved over a longer file; "
+                  rule="per protocol: roundtrip: 6 (thorough 40) cache contents reached by decoding announcements (0..240 templates; plain/options/enterprise/variable-length; IPv4-mapped, 4-byte and IPv6 exporters) dumped, loaded, every key probed with a well-formed data message and compared with the live cache, second generation identical; the same content saved by ANOTHER process and loaded by this one (a restart is never the same process); a smaller cache saved over a longer file; a run that starts from the file, sees a third of its templates re-announced with another definition (no new key) and saves; "
                        "crash: every image the observed write history of Dump can leave (old file, empty, EVERY byte prefix, prefixes zero-filled to 512/4096-octet boundaries and to full length, complete) - loaded cache must be a subset of the saved one and usable; "
                        "bytes: every position x 13 substitution octets, every single-octet deletion and duplication; struct: 28 Cache shapes x 11 ShardNo forms x 2 key orders + absent/empty/directory/non-JSON files. Usable = announce+data succeeds for 96 probe exporters;" + AGING_RULE + " after every crash image and every byte corruption the loaded entries are also USED: data for every exporter/template of the saved content is decoded (the decoder must cope with whatever the altered file made of them). Non-trivial = every case; distinct = file octets.",
                   assumptions=["write history of Dump: " + models["ipfix"]["source"],
